@@ -1,14 +1,15 @@
 (* C05 — substructural discipline: every channel used once unless dropped or split.
    Statement: spec/Linear.v (untyped path counting: LinearProgram) and spec/Indep.v
    (DropSplitProgram: a drop needs a weakenable mode, a split a contractable mode, stated on the
-   sequents of spec/Sequents.v).  Premise: uninit_prog (the parser creates names without channels),
-   evaluated on every parsed program by the executable oracle of the check.  (That the mode recorded
+   sequents of spec/Sequents.v).  Premise of the statements over arbitrary ASTs: uninit_prog (names
+   carry no channel); it is proved of everything parse_string returns (C05_parsed_uninit), so the
+   statements for parsed programs (C05_program_parsed) have no premise besides acceptance.  (That the mode recorded
    for a type definition is the mode of its body is established by the checker since the fix of F23.)
    History: the full statement was false of the tree as first pinned: F4, F13, F20 (fixed earlier)
    and F21, F22 (found by this proof: binders that shadow a live name / the provider's name; fixed). *)
 Require Import Grits.Base Grits.Forms Grits.Expand Grits.Tc Grits.TcTop
                Grits.spec.Linear Grits.spec.Sequents Grits.spec.Indep
-               Grits.spec.Oracle Grits.proofs.LinearProofs Grits.proofs.LinearTop Grits.proofs.IndepTop Grits.proofs.OracleProofs Grits.proofs.Witnesses.
+               Grits.spec.Oracle Grits.proofs.LinearProofs Grits.proofs.LinearTop Grits.proofs.IndepTop Grits.proofs.OracleProofs Grits.proofs.ParsedUninit Grits.proofs.Witnesses.
 
 (* one body: parameters / free names used exactly once on every control path, names out of scope
    never, every bound name exactly once in its scope, no binder re-binds a live name or the provider *)
@@ -19,6 +20,15 @@ Proof. exact tc_form_linear. Qed.
 
 Theorem C05_program : forall p p', uninit_prog p = true -> typecheck p = Accept p' -> LinearProgram p.
 Proof. exact tc_linear. Qed.
+
+(* closed forms for parsed programs: the premise uninit_prog is a theorem about parser output
+   (proofs/ParsedUninit.v, from ParseRaw.parse_raw_ok over the LR-driver invariant) *)
+Theorem C05_parsed_uninit : forall s p, parse_string s = POk p -> uninit_prog p = true.
+Proof. exact parsed_uninit. Qed.
+Theorem C05_program_parsed : forall s p p', parse_string s = POk p -> typecheck p = Accept p' -> LinearProgram p.
+Proof. exact tc_linear_parsed. Qed.
+Theorem C05_oracle_agrees_parsed : forall s p p', parse_string s = POk p -> typecheck p = Accept p' -> linear_program_b p = true.
+Proof. exact lin_oracle_agrees_parsed. Qed.
 
 Theorem C05_drop_split_modes : forall p p', typecheck p = Accept p' -> DropSplitProgram p p'.
 Proof. exact tc_drop_split_program. Qed.
@@ -43,6 +53,9 @@ Proof. exact (tc_linear _ _ ex_uninit ex_accepted). Qed.
 
 Print Assumptions C05_body.
 Print Assumptions C05_program.
+Print Assumptions C05_parsed_uninit.
+Print Assumptions C05_program_parsed.
+Print Assumptions C05_oracle_agrees_parsed.
 Print Assumptions C05_drop_split_modes.
 Print Assumptions C05_oracle_exact.
 Print Assumptions C05_oracle_agrees.
